@@ -1,5 +1,6 @@
 From Coq Require Import Reals ZArith List String.
-From OV Require Import Ops RInst XR Lemmas.L_RealRays Lemmas.L_Standard.
+From Coquelicot Require Import Coquelicot.
+From OV Require Import Ops RInst XR Gen.RealRays Gen.Standard Gen.Geometries Model.Trace Lemmas.L_RealRays Lemmas.L_Standard Lemmas.L_Trace Lemmas.L_Gradient Lemmas.L_RealRaysX.
 Local Open Scope R_scope.
 Import ListNotations.
 
@@ -195,4 +196,142 @@ Theorem C02_std_sag_on_quadric :
        quadric k Rc x y (Standard.k_std_sag ROps x y Rc k) = 0%R.
 Proof. exact std_sag_on_quadric. Qed.
 Print Assumptions C02_std_sag_on_quadric.
+
+Theorem C02_surface_opd :
+  forall (s : surf ROps) (r r' : ray ROps),
+       trace_surface s r = Some r' ->
+       exists t : R,
+         distance (s_shape s) (localize s r) = Some t /\ ropd r' = (ropd r + Rabs (t * s_n1 s))%R.
+Proof. exact surface_opd. Qed.
+Print Assumptions C02_surface_opd.
+
+Theorem C02_opl_is_sum :
+  forall (ss : list (surf ROps)) (r : ray ROps) (l : list (ray ROps)),
+       trace ss r = Some l -> map ropd l = running (ropd r) (path_terms ss r).
+Proof. exact opl_is_sum. Qed.
+Print Assumptions C02_opl_is_sum.
+
+Theorem C02_opl_increment_n_times_t :
+  forall (s : surf ROps) (r r' : ray ROps) (t : T ROps),
+       trace_surface s r = Some r' ->
+       distance (s_shape s) (localize s r) = Some t ->
+       (0 <= t)%R -> (0 <= s_n1 s)%R -> (ropd r' - ropd r)%R = (s_n1 s * t)%R.
+Proof. exact opl_increment_n_times_t. Qed.
+Print Assumptions C02_opl_increment_n_times_t.
+
+Theorem C02_propagate_is_translation :
+  forall t x L y M z N k w i : T ROps,
+       let
+       '(x', y', z', _) := k_propagate ROps t x L y M z N k w i in
+        x' = (x + t * L)%R /\ y' = (y + t * M)%R /\ z' = (z + t * N)%R.
+Proof. exact propagate_is_translation. Qed.
+Print Assumptions C02_propagate_is_translation.
+
+Theorem C02_propagate_length :
+  forall (t : R) (x : T ROps) (L : R) (y : T ROps) (M : R) (z : T ROps) 
+         (N : R) (k w i : T ROps),
+       (L * L + M * M + N * N)%R = 1%R ->
+       (0 <= t)%R ->
+       let
+       '(x', y', z', _) := k_propagate ROps t x L y M z N k w i in
+        sqrt ((x' - x) * (x' - x) + (y' - y) * (y' - y) + (z' - z) * (z' - z)) = t.
+Proof. exact propagate_length. Qed.
+Print Assumptions C02_propagate_length.
+
+Theorem C02_std_sag_dx :
+  forall Rc k : R,
+       Rc <> 0%R ->
+       forall x y : R,
+       (0 < rad Rc k x y)%R ->
+       Derive.is_derive
+         (fun x0 : Hierarchy.AbsRing.sort Hierarchy.R_AbsRing => k_std_sag ROps x0 y Rc k) x
+         (x / (Rc * sqrt (rad Rc k x y)))%R.
+Proof. exact std_sag_dx. Qed.
+Print Assumptions C02_std_sag_dx.
+
+Theorem C02_std_sag_dy :
+  forall Rc k : R,
+       Rc <> 0%R ->
+       forall x y : R,
+       (0 < rad Rc k x y)%R ->
+       Derive.is_derive
+         (fun y0 : Hierarchy.AbsRing.sort Hierarchy.R_AbsRing => k_std_sag ROps x y0 Rc k) y
+         (y / (Rc * sqrt (rad Rc k x y)))%R.
+Proof. exact std_sag_dy. Qed.
+Print Assumptions C02_std_sag_dy.
+
+Theorem C02_std_normal_is_gradient :
+  forall Rc k : R,
+       Rc <> 0%R ->
+       forall x y : R,
+       (0 < rad Rc k x y)%R ->
+       exists gx gy : R,
+         Derive.is_derive
+           (fun x0 : Hierarchy.AbsRing.sort Hierarchy.R_AbsRing => k_std_sag ROps x0 y Rc k) x gx /\
+         Derive.is_derive
+           (fun y0 : Hierarchy.AbsRing.sort Hierarchy.R_AbsRing => k_std_sag ROps x y0 Rc k) y gy /\
+         k_std_normal ROps x y Rc k =
+         ((gx / sqrt (gx * gx + gy * gy + 1))%R, (gy / sqrt (gx * gx + gy * gy + 1))%R,
+          (-1 / sqrt (gx * gx + gy * gy + 1))%R).
+Proof. exact std_normal_is_gradient. Qed.
+Print Assumptions C02_std_normal_is_gradient.
+
+Theorem C02_ea_sag_is_conic_plus_poly :
+  forall (x y Rc k : T ROps) (c : list (T ROps)),
+       k_ea_sag ROps x y Rc k c = (k_std_sag ROps x y Rc k + ea_poly 0 c (x * x + y * y))%R.
+Proof. exact ea_sag_is_conic_plus_poly. Qed.
+Print Assumptions C02_ea_sag_is_conic_plus_poly.
+
+Theorem C02_ea_sag_dx :
+  forall (x y Rc k : R) (c : list (T ROps)),
+       Rc <> 0%R ->
+       (0 < rad Rc k x y)%R ->
+       Derive.is_derive
+         (fun x0 : Hierarchy.AbsRing.sort Hierarchy.R_AbsRing => k_ea_sag ROps x0 y Rc k c) x
+         (x / (Rc * sqrt (rad Rc k x y)) + 2 * x * ea_dpoly 0 c (x * x + y * y))%R.
+Proof. exact ea_sag_dx. Qed.
+Print Assumptions C02_ea_sag_dx.
+
+Theorem C02_ea_normal_is_gradient :
+  forall (x y Rc k : R) (c : list (T ROps)),
+       Rc <> 0%R ->
+       (0 < rad Rc k x y)%R ->
+       exists gx gy : R,
+         Derive.is_derive
+           (fun x0 : Hierarchy.AbsRing.sort Hierarchy.R_AbsRing => k_ea_sag ROps x0 y Rc k c) x gx /\
+         k_ea_normal ROps x y Rc k c =
+         ((gx / sqrt (gx * gx + gy * gy + 1))%R, (gy / sqrt (gx * gx + gy * gy + 1))%R,
+          (-1 / sqrt (gx * gx + gy * gy + 1))%R) /\
+         gy = (y / (Rc * sqrt (rad Rc k x y)) + 2 * y * ea_dpoly 0 c (x * x + y * y))%R.
+Proof. exact ea_normal_is_gradient. Qed.
+Print Assumptions C02_ea_normal_is_gradient.
+
+Theorem C02_refract_tir_nonfinite :
+  forall nx ny nz n1 n2 L M N : R,
+       n2 <> 0%R ->
+       let dot := (L * nx + M * ny + N * nz)%R in
+       let u := (n1 / n2)%R in
+       (1 - u * u * (1 - Rabs dot * Rabs dot) < 0)%R ->
+       k_refract XOps (Fin nx) (Fin ny) (Fin nz) (Fin n1) (Fin n2) (Fin L) (Fin M) (Fin N) =
+       (NaN, NaN, NaN).
+Proof. exact refract_tir_nonfinite. Qed.
+Print Assumptions C02_refract_tir_nonfinite.
+
+Theorem C02_refract_lift :
+  forall nx ny nz n1 n2 L M N : R,
+       n2 <> 0%R ->
+       let dot := (L * nx + M * ny + N * nz)%R in
+       let u := (n1 / n2)%R in
+       (0 <= 1 - u * u * (1 - Rabs dot * Rabs dot))%R ->
+       k_refract XOps (Fin nx) (Fin ny) (Fin nz) (Fin n1) (Fin n2) (Fin L) (Fin M) (Fin N) =
+       (let '(a, b, c) := k_refract ROps nx ny nz n1 n2 L M N in (Fin a, Fin b, Fin c)).
+Proof. exact refract_lift. Qed.
+Print Assumptions C02_refract_lift.
+
+Theorem C02_reflect_lift :
+  forall nx ny nz L M N : R,
+       k_reflect XOps (Fin nx) (Fin ny) (Fin nz) (Fin L) (Fin M) (Fin N) =
+       (let '(a, b, c) := k_reflect ROps nx ny nz L M N in (Fin a, Fin b, Fin c)).
+Proof. exact reflect_lift. Qed.
+Print Assumptions C02_reflect_lift.
 
